@@ -11,6 +11,7 @@ From Coq Require Import List NArith Bool.
 From V.C10 Require Import Model.
 From V.Mgr Require Import DialShape DialShapeProofs Model Caps Ledger LedgerInv.
 From V.Tcp Require Model Proofs Theorems.
+From V.C05 Require TcpCompose.
 Import ListNotations.
 Open Scope N_scope.
 
@@ -607,3 +608,131 @@ Example C05_tcp_history :
    [Tcp.Model.OEv (Tcp.Model.TPendingInbound 3)]; [Tcp.Model.ORet true];
    [Tcp.Model.OEv (Tcp.Model.TEstablished 3 7 true)]].
 Proof. exact Tcp.Theorems.history1_ok. Qed.
+
+
+(* ---- manager + TcpTransport together (coq/C05/TcpCompose.v) ----
+   The manager model and the TCP transport model are plugged into each other: every call of the
+   manager is executed by the TCP model, every event of the TCP model is handled by the manager, the
+   id counter is shared. Inputs from outside: XCmd (user / protocol side: dial requests, address
+   additions, closed connections, accept futures) and XNet (network / runtime: a socket arrives, an
+   attempt of a pending future ends, a deadline fires, the transport is polled). `xfeasible` keeps of
+   `feas` only the clauses about the address store (choice_ok), the protocols (accept futures
+   succeed) and the kind of the inputs; TCP is the one installed transport. *)
+
+(* the transport contract is no assumption any more: every history of outside inputs makes the
+   manager see an event history that satisfies `feas`, and the manager part of the composed run is
+   the manager model run on that history *)
+Theorem C05_sys_feasible :
+  forall L, (forall t, installed L t = true <-> t = TCP) ->
+  forall xs, TcpCompose.xfeasible L TcpCompose.sys0 xs ->
+  feasible L init g0 (TcpCompose.sys_trace L TcpCompose.sys0 xs) /\
+  (TcpCompose.s_m (TcpCompose.sys_run L TcpCompose.sys0 xs), TcpCompose.s_g (TcpCompose.sys_run L TcpCompose.sys0 xs)) =
+  lrun L init g0 (TcpCompose.sys_trace L TcpCompose.sys0 xs).
+Proof. exact TcpCompose.sys_feasible0. Qed.
+Print Assumptions C05_sys_feasible.
+
+(* ... one input at a time, from any state the coupling invariant holds in *)
+Theorem C05_sys_step :
+  forall L, (forall t, installed L t = true <-> t = TCP) ->
+  forall st x, TcpCompose.Inv L st -> TcpCompose.xok L st x ->
+  feasible L (TcpCompose.s_m st) (TcpCompose.s_g st) (TcpCompose.sys_evs L st x) /\
+  TcpCompose.Inv L (TcpCompose.sys_step L st x).
+Proof. exact TcpCompose.sys_step_inv. Qed.
+Print Assumptions C05_sys_step.
+
+(* the ledger theorems for manager + TCP, without assuming anything about the transport *)
+Theorem C05_sys_at_most_one_outcome :
+  forall L, (forall t, installed L t = true <-> t = TCP) ->
+  forall xs, TcpCompose.xfeasible L TcpCompose.sys0 xs ->
+  NoDup (terminals L init (TcpCompose.sys_trace L TcpCompose.sys0 xs)).
+Proof. exact TcpCompose.sys_at_most_one_outcome. Qed.
+Print Assumptions C05_sys_at_most_one_outcome.
+
+Theorem C05_sys_no_silence :
+  forall L, (forall t, installed L t = true <-> t = TCP) ->
+  forall xs, TcpCompose.xfeasible L TcpCompose.sys0 xs ->
+  let st := TcpCompose.sys_run L TcpCompose.sys0 xs in
+  quiescent (TcpCompose.s_m st) (TcpCompose.s_g st) ->
+  forall c p, lookup c (g_att (TcpCompose.s_g st)) = Some p ->
+    In c (g_done (TcpCompose.s_g st)) \/
+    (In c (g_super (TcpCompose.s_g st)) /\ In p (g_rep (TcpCompose.s_g st))) \/
+    In c (g_limrej (TcpCompose.s_g st)).
+Proof. exact TcpCompose.sys_no_silence. Qed.
+Print Assumptions C05_sys_no_silence.
+
+Theorem C05_sys_no_wedge :
+  forall L, (forall t, installed L t = true <-> t = TCP) ->
+  forall xs, TcpCompose.xfeasible L TcpCompose.sys0 xs ->
+  let st := TcpCompose.sys_run L TcpCompose.sys0 xs in
+  quiescent (TcpCompose.s_m st) (TcpCompose.s_g st) -> forall p, settled (state_of (TcpCompose.s_m st) p).
+Proof. exact TcpCompose.sys_no_wedge. Qed.
+Print Assumptions C05_sys_no_wedge.
+
+(* quiescence is a fact about the TCP model's own ledger: nothing owed for an open, nothing owed
+   for a dial / negotiate, no accept future of the protocols pending *)
+Theorem C05_sys_quiescent :
+  forall L, (forall t, installed L t = true <-> t = TCP) ->
+  forall xs, TcpCompose.xfeasible L TcpCompose.sys0 xs ->
+  let st := TcpCompose.sys_run L TcpCompose.sys0 xs in
+  quiescent (TcpCompose.s_m st) (TcpCompose.s_g st) <->
+  Tcp.Model.g_open (TcpCompose.s_tg st) = [] /\ Tcp.Model.g_neg (TcpCompose.s_tg st) = [] /\
+  accepting (TcpCompose.s_m st) = [].
+Proof. exact TcpCompose.sys_quiescent0. Qed.
+Print Assumptions C05_sys_quiescent.
+
+(* what is left to the network, made explicit: whatever the manager waits for is backed by a
+   pending future of the TCP model (an un-cancelled open future with its address table, or a dial /
+   negotiate future) ... *)
+Theorem C05_sys_owed_is_pending :
+  forall L, (forall t, installed L t = true <-> t = TCP) ->
+  forall xs c, TcpCompose.xfeasible L TcpCompose.sys0 xs ->
+  let st := TcpCompose.sys_run L TcpCompose.sys0 xs in
+  owed (TcpCompose.s_g st) c ->
+  (exists f rem, Tcp.Model.lookup f (Tcp.Model.praw (TcpCompose.s_t st)) = Some c /\
+                 Tcp.Model.lookup f (Tcp.Model.attempts (TcpCompose.s_t st)) = Some rem /\
+                 ~ In f (Tcp.Model.aborted (TcpCompose.s_t st))) \/
+  (exists f k, Tcp.Model.lookup f (Tcp.Model.pconn (TcpCompose.s_t st)) = Some (c, k) /\ Tcp.Model.is_inb k = false).
+Proof. exact TcpCompose.sys_owed_is_pending0. Qed.
+Print Assumptions C05_sys_owed_is_pending.
+
+(* ... and there is a network / runtime input (the deadline of the open fires, the dial attempt
+   ends, the transport is polled) that is allowed next and whose handling hands the manager an
+   answer for that connection id: the only liveness assumption left is that the network lets every
+   pending future end and the runtime polls the transport *)
+Theorem C05_sys_progress :
+  forall L, (forall t, installed L t = true <-> t = TCP) ->
+  forall xs c, TcpCompose.xfeasible L TcpCompose.sys0 xs ->
+  let st := TcpCompose.sys_run L TcpCompose.sys0 xs in
+  owed (TcpCompose.s_g st) c ->
+  exists n, Tcp.Model.polls n = true /\ TcpCompose.xfeasible L TcpCompose.sys0 (xs ++ [TcpCompose.XNet n]) /\
+            exists e, In e (TcpCompose.sys_evs L st (TcpCompose.XNet n)) /\ TcpCompose.answers c e.
+Proof. exact TcpCompose.sys_progress0. Qed.
+Print Assumptions C05_sys_progress.
+
+(* no debug assertion / expect of the manager is reached in the composed system *)
+Theorem C05_sys_no_stuck :
+  forall L, (forall t, installed L t = true <-> t = TCP) ->
+  forall xs x s, TcpCompose.xfeasible L TcpCompose.sys0 (xs ++ [x]) ->
+  forall e m g es2, TcpCompose.sys_evs L (TcpCompose.sys_run L TcpCompose.sys0 xs) x = e :: es2 ->
+  (m, g) = (TcpCompose.s_m (TcpCompose.sys_run L TcpCompose.sys0 xs), TcpCompose.s_g (TcpCompose.sys_run L TcpCompose.sys0 xs)) ->
+  ~ In (Stuck s) (snd (step L m e)).
+Proof. exact TcpCompose.sys_no_stuck. Qed.
+Print Assumptions C05_sys_no_stuck.
+
+(* non-vacuity: a composed history with TCP alone installed — dial by peer id with two addresses
+   (the first answered by another identity), ConnectionOpened, cancel + negotiate, the connection
+   reported and accepted; an inbound socket accepted and authenticated; a dial through the handle
+   whose attempt fails; nothing is owed at the end *)
+Example C05_sys_history :
+  TcpCompose.xfeasible TcpCompose.L_tcp TcpCompose.sys0 TcpCompose.history2 /\
+  TcpCompose.sys_trace TcpCompose.L_tcp TcpCompose.sys0 TcpCompose.history2 =
+    [CmdAddAddr 5 TCP; CmdDialPeer 5 [TCP] []; TrOpened 0 TCP false; TrEstablished 5 0 TCP false false;
+     AcceptDone 0 true; AllocConn; TrPendingInbound 1 TCP; TrEstablished 7 1 TCP true false; AcceptDone 1 true;
+     HDialAddr (canon 6 TCP) false; TrDialFailure 2 TCP 6] /\
+  snd (run TcpCompose.L_tcp init (TcpCompose.sys_trace TcpCompose.L_tcp TcpCompose.sys0 TcpCompose.history2)) =
+    [[]; [CallOpen 0 TCP; Ret RET_OK]; [CallCancel 0 TCP; CallNegotiate 0 TCP]; [CallAccept 0 TCP];
+     [EvEstablished 5 0]; [Ret (RET_ALLOC + 1)]; [CallAcceptPending 1 TCP]; [CallAccept 1 TCP];
+     [EvEstablished 7 1]; [Ret RET_OK; CallDial 2 TCP; Logged RET_OK]; [ProtoDialFailure 6; EvDialFailure 2 6]] /\
+  quiescent (TcpCompose.s_m (TcpCompose.sys_run TcpCompose.L_tcp TcpCompose.sys0 TcpCompose.history2))
+            (TcpCompose.s_g (TcpCompose.sys_run TcpCompose.L_tcp TcpCompose.sys0 TcpCompose.history2)).
+Proof. exact TcpCompose.history2_ok. Qed.
